@@ -70,7 +70,16 @@ func genBoolCase(r *Rng, tier string) boolCase {
 
 // a share of touching configurations: polygons glued along part of a common lattice line
 func maybeGlue(r *Rng, c *boolCase) {
-	if !r.Chance(0.12) {
+	switch r.Pick(76, 12, 12) {
+	case 0:
+		return
+	case 2:
+		// dense self-intersecting polygons: rounded intersection points make adjacent output
+		// edges cross, so the self-intersection repair (fixSelfIntersects / doSplitOp) runs
+		c.Subject = clip.Paths64{genRandPoly(r, GenCfg{Grid: 100, Unit: 1}, r.Range(16, 24))}
+		if c.Clip != nil {
+			c.Clip = clip.Paths64{genRandPoly(r, GenCfg{Grid: 100, Unit: 1}, r.Range(3, 10))}
+		}
 		return
 	}
 	k := []int64{1, 1, 10}[r.Intn(3)]
@@ -121,7 +130,7 @@ func init() {
 }
 
 func searchC01(ctx *Ctx, n int) Result {
-	col := NewCollector("C01", "search", "random closed subject/clip sets (grid polygons, stars, rectangles, staircases, nested rings, decorated with duplicates/collinear points/spikes; 12 % triangles and quadrilaterals glued along part of a common lattice line) × 4 clip types × 4 fill rules × {BooleanOpPaths64, engine object, wrapper}; non-trivial = the solution is non-empty and the oracle judged ≥ 2 faces; distinct by input hash")
+	col := NewCollector("C01", "search", "random closed subject/clip sets (grid polygons, stars, rectangles, staircases, nested rings, decorated with duplicates/collinear points/spikes; 12 % triangles and quadrilaterals glued along part of a common lattice line, 12 % dense self-intersecting 16-24-gons on a 100-unit grid) × 4 clip types × 4 fill rules × {BooleanOpPaths64, engine object, wrapper}; non-trivial = the solution is non-empty and the oracle judged ≥ 2 faces; distinct by input hash")
 	parallelFor(ctx, n, true, col, func(o *Oracle, i int) {
 		r := NewRng(ctx.Seed, "c01", i)
 		c := genBoolCase(r, ctx.Tier)
